@@ -67,6 +67,21 @@ CHECKS = {
          "Mint: 700 three-period configurations x every cadence of a 6/8-point grid through the real minter BeginBlocker, event amount == supply delta. Distribution: the complete C03 configuration x history space, per sub-distributor the Distribution + DistributionBurn events must add up to its inflow (from the flow model validated by C04). Withdraw: the C06 exploration (one owner, three pools maturing at different times), every withdrawal and pool send must emit exactly one WithdrawAvailable per paying pool carrying that pool's amount.",
          "Typed events decoded with sdk.ParseTypedEvent.",
          "DESIGN.md §3 C18"),
+ "C01": ("model_checking",
+         "explicit-state BFS over the full application on real-store branches + ABCI conformance replay",
+         "Every history of <= 5 (quick) / 6 (thorough) events over block steps (1 s, 7 s, jump past the period end), all vesting messages valid and rejected, signature messages, a fee-paying transaction and governance updates of minter and burn share, on the full application (all modules' Begin/EndBlockers in real order). Every state: supply == sum of all balances for every denom. Every block: supply delta == bank-minted - bank-burned, only the minter module mints (its own denom, exactly the amount it reports, equal to the exact-rational schedule while governance has not replaced it) and only the distributor burns, exactly what its burn books say. Every message: supply unchanged and only signer / vesting module / recipient / fee collector balances move.",
+         "One configuration per scenario (linear then exponential period, burn share 0.1, fractional shares); SDK modules trusted.",
+         "DESIGN.md §3 C01"),
+ "C10": ("model_checking",
+         "explicit-state BFS over the full application on real-store branches + ABCI conformance replay",
+         "Every history of <= 4 (quick) / 5 (thorough) events over block steps (1 ms .. jump over two periods), 12 governance minter updates (start moved past/future, current period end moved before/after now, periods dropped/added around the current id, ids not starting at 1, amount 1e35, denominations incl. invalid ones), 6 governance distributor updates (persistently failing locked source and blocked destination, share to MAIN, burn 0.99, partial updates), a fee-paying transaction and a module-level genesis export->import restart; begin/end-block processing of all modules must never panic.",
+         "Updates are filtered by the real validation; restart on branches uses the modules' exported Init/ExportGenesis (the ABCI form is decided under C12).",
+         "DESIGN.md §3 C10"),
+ "C13": ("model_checking",
+         "explicit-state BFS over the full application on real-store branches + ABCI conformance replay",
+         "Every sequence of <= 4 (quick) / 5 (thorough) events over the 7 parameter-update message types x authority {gov, user, empty, garbage} x 33 payloads (valid, invalid, partially valid: share pushing the sum to 1, burn share 1, replacement breaking the MAIN ordering rule, minters missing the current id, unordered, gap, linear last, denom changes) interleaved with blocks that move the minter to the next period and a create-pool message. Every state: stored parameters of all three modules validate and contain the minter's current period. Every transition: non-gov authority is rejected, a rejected update leaves all parameter bytes unchanged, an accepted one stores exactly the requested value, the vesting denom never changes while pools exist, no other message changes parameters.",
+         "Authority messages are executed the way x/gov executes them (router handler on a cache branch).",
+         "DESIGN.md §3 C13"),
 }
 
 NOT_YET = {}
